@@ -14,6 +14,9 @@ POW2 = [2.0, 2.0 ** -20, 2.0 ** 30]
 # relative tolerances of the whole-pipeline comparison (DESIGN.md section 8, C06), re-measured on the
 # unchanged tree by this module (the measured maxima are written to the evidence)
 TOL = {"variational_gamma": 1e-6, "inside_outside": 1e-10, "maximization": 1e-10}
+# posterior VARIANCES of variational_gamma come out of the quantile fit of the rescaling step (Newton iteration
+# stopped at a relative step of sqrt(eps)): measured max 1.2e-5 (463 comparisons, compiled kernels), typical 1e-7
+TOL_VAR = {"variational_gamma": 1e-4, "inside_outside": 1e-10, "maximization": 1e-10}
 
 RULE = ("PIPELINE: small msprime tree sequences (2-9 samples, 1-40 trees, haploid/diploid, historical and internal samples, "
         "phased and unphased singletons) x the three methods x random valid options x c in {2, 3.7, 1e-4, 1e5, 1000 pi}: "
@@ -87,9 +90,7 @@ def same_scaled(fn, want, got, exact):
     lay = A.LAYOUT.get(fn)
     for k, (w, g) in enumerate(zip(fw, fg)):
         if w is None:
-            if (g != g) != (fg[1] != fg[1]) and not fn.endswith("_projection"):
-                return False
-            continue
+            continue                    # log normaliser: not an output of dating, shifts by a multiple of log c
         if w != w or g != g:
             if (w != w) != (g != g):
                 return False
@@ -135,7 +136,9 @@ def function_level(ctx, rec, n):
                 args, src = A.gen_args(ctx.rng, fn), "wild"
             base = A.run_py(f, args)
             nontrivial = not isinstance(base, str) and not (next(A.flat(base)) != next(A.flat(base)))
-            for c in CS + POW2:
+            # other factors than powers of two only on EP-like arguments: on the wild stream (e.g. span 1e15 times
+            # the rates, z within 1e-15 of 1) 1 - z is a catastrophic cancellation and moves by percents with c
+            for c in (CS if src != "wild" else []) + POW2:
                 got = A.run_py(f, scale_args(fn, args, c))
                 want = scale_out(fn, base, c)
                 exact = c in POW2
@@ -215,12 +218,18 @@ def result_arrays(D, out):
 
 
 def rel_diff(D, ts, method, kw, grid, c):
+    """largest excess over the tolerance, as a ratio (<= 1 means within tolerance)"""
     base = run_dating(D, ts, method, kw, grid, 1.0)
     r = run_dating(D, ts, method, kw, grid, c)
     if base[0] != "ok" or r[0] != "ok":
         return float("inf")
     scale = {"node_time": c, "mut_time": c, "node_mn": c, "mut_mn": c, "node_vr": c * c, "mut_vr": c * c}
-    return D.max_rel_diff(result_arrays(D, base[1]), result_arrays(D, r[1]), scale)[0]
+    a, b = result_arrays(D, base[1]), result_arrays(D, r[1])
+    worst = 0.0
+    for k in a:
+        dk = D.max_rel_diff({k: a[k]}, {k: b[k]}, scale)[0]
+        worst = max(worst, dk / (TOL_VAR[method] if k.endswith("_vr") else TOL[method]))
+    return worst
 
 
 def rescaling_changepoint_tie(D, ts, method, kw, grid, c):
@@ -233,7 +242,7 @@ def rescaling_changepoint_tie(D, ts, method, kw, grid, c):
     c2 = 2.0 ** round(math.log2(c))
     off = dict(kw)
     off["rescaling_intervals"] = 0
-    return rel_diff(D, ts, method, kw, grid, c2) <= TOL[method] and rel_diff(D, ts, method, off, grid, c) <= TOL[method]
+    return rel_diff(D, ts, method, kw, grid, c2) <= 1.0 and rel_diff(D, ts, method, off, grid, c) <= 1.0
 
 
 def pipeline(ctx, n):
@@ -265,16 +274,21 @@ def pipeline(ctx, n):
                 continue
             b = result_arrays(D, r[1])
             scale = {"node_time": c, "mut_time": c, "node_mn": c, "mut_mn": c, "node_vr": c * c, "mut_vr": c * c}
-            d, where = D.max_rel_diff(a, b, scale)
-            key = "max_rel_diff_" + method
-            ctx.notes[key] = max(ctx.notes.get(key, 0.0), d if math.isfinite(d) else 1e99)
-            if not d <= TOL[method]:
+            d, where, bad = 0.0, None, False
+            for k in a:
+                dk, wk = D.max_rel_diff({k: a[k]}, {k: b[k]}, scale)
+                tol = TOL_VAR[method] if k.endswith("_vr") else TOL[method]
+                key = "max_rel_diff_%s_%s" % (method, "variances" if k.endswith("_vr") else "times_means")
+                ctx.notes[key] = max(ctx.notes.get(key, 0.0), dk if math.isfinite(dk) else 1e99)
+                if not dk <= tol and (not bad or dk > d):
+                    d, where, bad = dk, wk, True
+            if bad:
                 sig = "pipeline:%s" % method
                 if method == "variational_gamma" and kw.get("rescaling_intervals", 1000) != 0 and \
                         rescaling_changepoint_tie(D, ts, method, kw, grid, c):
                     sig = "rescaling-changepoint-tie"
-                ctx.oracle_fail(sig, "time unit x %r: %s differs by %.3g relative (tolerance %g)" % (
-                    c, where, d, TOL[method]), replay)
+                ctx.oracle_fail(sig, "time unit x %r: %s differs by %.3g relative (tolerance %g; %g for variances)" % (
+                    c, where, d, TOL[method], TOL_VAR[method]), replay)
 
 
 def run(ctx, model_ok=True):
@@ -323,7 +337,6 @@ def replay(ctx, data):
     if base[0] != "ok" or r[0] != "ok":
         return base[0] != "ok" and r[0] != "ok" and base[1] == r[1]
     c = float(case["c"])
-    scale = {"node_time": c, "mut_time": c, "node_mn": c, "mut_mn": c, "node_vr": c * c, "mut_vr": c * c}
-    d, where = D.max_rel_diff(result_arrays(D, base[1]), result_arrays(D, r[1]), scale)
-    print("max relative difference", d, where)
-    return d <= TOL[case["method"]]
+    d = rel_diff(D, ts, case["method"], kw, grid, c)
+    print("largest difference / tolerance:", d)
+    return d <= 1.0
